@@ -281,6 +281,10 @@ class StmtMixin:
         if isinstance(base, VExc):
             base.attrs[name] = v
             return
+        if isinstance(base, VModule) and not base.name.startswith('billiard.'):
+            # rebinding an attribute of a foreign module (sys.exit = wrapper): visible to later lookups on this path
+            self.path.__dict__.setdefault('module_overrides', {})[base.name + '.' + name] = v
+            return
         raise Unsupported('setattr on %r' % (base,))
 
     def setitem(self, base, idx, v):
